@@ -314,7 +314,13 @@ pub fn run_check(fam: &dyn Family, a: &CheckArgs) -> i32 {
     // scenarios in which a worker died: re-execute alone, in a fresh process
     let mut harness_errors: Vec<String> = vec![];
     let mut violations: Vec<Violation> = vec![];
+    let mut deaths_not_judged: Vec<String> = vec![];
     for (n_dead, (i, how)) in dead_scenarios.iter().enumerate() {
+        if !fam.death_is_violation(&a.prop) {
+            // the property says nothing about termination or crashes: recorded, not judged, not re-run
+            deaths_not_judged.push(format!("scenario {i}: worker died or hung ({how})"));
+            continue;
+        }
         if n_dead >= 2 {
             // each confirmation may take twice the watchdog: confirm the first two only
             harness_errors.push(format!("scenario {i}: worker died ({how}); not re-run (two dead scenarios were already re-run)"));
@@ -383,7 +389,7 @@ pub fn run_check(fam: &dyn Family, a: &CheckArgs) -> i32 {
     }
     reports.sort_by_key(|r| r.idx);
     reports.dedup_by_key(|r| r.idx);
-    if (reports.len() as u64) + (dead_in_reference.len() as u64) < total && dead_scenarios.is_empty() {
+    if (reports.len() as u64) + (dead_in_reference.len() as u64) + (deaths_not_judged.len() as u64) < total && dead_scenarios.is_empty() {
         harness_errors.push(format!("only {} of {} scenarios reported", reports.len(), total));
     }
 
@@ -588,6 +594,7 @@ pub fn run_check(fam: &dyn Family, a: &CheckArgs) -> i32 {
             "known_findings_hit": known_hits,
             "unlisted_violations_seen": n_fresh,
             "harness_errors": harness_errors,
+            "worker_deaths_not_judged_for_this_property": deaths_not_judged,
             "violations_confirmed": confirmed.iter().map(|(v, p)| json!({"oracle": v.oracle, "class": v.class, "message": v.message, "replay": p.display().to_string()})).collect::<Vec<_>>(),
         },
         "assumptions": assumptions,
